@@ -85,6 +85,9 @@ func c05run(line string) (string, []string) {
 	if op == "cluster_root" {
 		return c05cluster(t.u(), t.n(), t.n() == 1)
 	}
+	if op == "extract_leaves" {
+		return c05extractLeaves(t.u(), t.n() == 1)
+	}
 	k := t.n()
 	var es []Ent
 	if op == "optreg" { // optreg <target> <n> <gap> <len>: a regular list given by its parameters
@@ -122,6 +125,40 @@ func c05run(line string) (string, []string) {
 		return "ok", viol
 	}
 	return fmt.Sprintf("ok %d %s %s", n, digest(root), digest(leaves)), viol
+}
+
+// extract_leaves <seed> <gzip>: the writer command that lays root and leaf directories into a file - a whole-archive extract of a
+// source with more than 16,384 entries (all tiles of zooms 0..7), so that the output needs leaf directories; the output is read back
+// through its header offsets by the independent reader: structure (sections chained, root within 16 KiB, leaves tiling the leaf
+// section) and every entry.   -> ok   (oracle only)
+func c05extractLeaves(seed uint64, gzipped bool) (string, []string) {
+	r := &rng{s: seed}
+	var es []Ent
+	var data []byte
+	for id := uint64(0); id < 21845; id++ {
+		l := uint32(1 + r.intn(3))
+		es = append(es, Ent{ID: id, Off: uint64(len(data)), Len: l, Run: 1})
+		data = append(data, r.bytes(int(l))...)
+	}
+	a := buildArchive(r, es, data, archOpts{tree: treeOpts{depth: 1, fan: 1, chunk: 5000, gzip: gzipped, shorthand: true}, tileType: 2, tileComp: 1, meta: `{"name":"src"}`, minZoom: 0, maxZoom: 7, clustered: true})
+	dir, _ := os.MkdirTemp("", "vh-c05x")
+	defer os.RemoveAll(dir)
+	src, out := filepath.Join(dir, "src.pmtiles"), filepath.Join(dir, "out.pmtiles")
+	os.WriteFile(src, a.Bytes, 0o644)
+	restore := silence()
+	err := pmtiles.Extract(quietLogger, "", src, -1, -1, "", "", out, 2, 0.05, false)
+	restore()
+	if err != nil {
+		return "err", []string{"extract of a whole 21,845-tile archive failed: " + err.Error()}
+	}
+	f, _ := os.ReadFile(out)
+	h2, es2, data2, _, rerr := readArch(f)
+	if rerr != nil {
+		return "ok", []string{"the extract (an archive that needs leaf directories) cannot be read back through its header offsets: " + rerr.Error()}
+	}
+	viol := structureViolations(f, h2, es2)
+	viol = append(viol, contentMapViolations(es, data, es2, data2, "extract")...)
+	return "ok", viol
 }
 
 // nearBudgetList: n badly compressing entries in clustered layout (contiguous offsets) from a seed.
@@ -305,6 +342,9 @@ func c05(r *rng, tier string, o *out) {
 		seed := r.next()
 		lo := nearBudgetN(seed)
 		emit(fmt.Sprintf("cluster_root %d %d %d", seed, lo, c%2), true, "cluster_root_near_budget")
+		if c < 2 || tier == "thorough" {
+			emit(fmt.Sprintf("extract_leaves %d %d", r.next()%1000000, c%2), true, "extract_with_leaf_directories")
+		}
 	}
 	_ = bytes.Equal
 }
